@@ -14,7 +14,7 @@ from bctmc.runner import guarded
 from bctmc.tally import Tally
 
 PROPERTY = 'C03'
-RULE = ('every free tree on 8-9 nodes under the scan orders of bctmc/trees.py (3354 labelled trees, 0/1); a fixed family of ~100 structured graphs on 7-10 nodes (bctmc/named.py: paths, cycles, stars, wheels, cliques, '
+RULE = ('every free tree on 8 nodes under the scan orders of bctmc/trees.py (951 labelled trees, 0/1); a fixed family of ~100 structured graphs on 7-10 nodes (bctmc/named.py: paths, cycles, stars, wheels, cliques, '
         'bipartite, ladders, trees, unions with isolated nodes, DAGs, tournaments; binary, lengths {1,2},{1,2,3}, near-tie) and '
         'every labelled digraph / undirected graph of the stated families (binary n<=4 dir, n<=5 und, and the five-node digraphs with <= 8 connections (thorough: all 2^20) for distance_bin/breadthdist/reachdist; '
         'lengths {1,2,3} and the near-tie alphabet {1, 2, 2+2^-20} (1+1 is shorter than 2+2^-20 by less than any common tolerance) on 3-node digraphs and 4-node graphs; weights {1,1/2,1/4} for inv/log; thorough adds '
@@ -46,7 +46,7 @@ FAMILIES = {
 }
 
 
-NAMED = {'named:bintree_und': 'bin', 'named:bin_und': 'bin', 'named:bin_dir': 'bin', 'named:len_und': 'len', 'named:len_dir': 'len',
+NAMED = {'named:bintree8_und': 'bin', 'named:bin_und': 'bin', 'named:bin_dir': 'bin', 'named:len_und': 'len', 'named:len_dir': 'len',
          'named:neartie_und': 'len', 'named:neartie_dir': 'len'}
 
 
